@@ -314,9 +314,9 @@ def generate(unit):
             cm = rscan.find_code(src, mask, kv["closure"] + r"(?=(?:move\s+)?\|)", b, end)
             if not cm:
                 raise Undecided(f"lost anchor: no closure after /{kv['closure']}/ in {kv['item']} of {kv['file']}")
-            hm = re.compile(r"(?:move\s+)?\|\s*(\w+)\s*(?::[^|,]*)?(?:,\s*\w+\s*(?::[^|,]*)?)*\|\s*").match(src, cm.end())
+            hm = re.compile(r"(?:move\s+)?\|\s*(\w+)\s*(?::[^|,]*)?(?:,\s*\w+\s*(?::[^|,]*)?)*\|\s*(?:async\s+move\s+)?").match(src, cm.end())
             if not hm or src[hm.end()] != "{":
-                raise Undecided(f"lost anchor: closure after /{kv['closure']}/ in {kv['item']} is not a block closure with one named parameter")
+                raise Undecided(f"lost anchor: closure after /{kv['closure']}/ in {kv['item']} is not a block closure (a block after `|x, ..|` or after `|x, ..| async move`)")
             sig_start, b = cm.end(), hm.end()
             end = rscan.match_brace(src, mask, b) + 1
             # `$x` in //@expect, //@sig and the contract stands for the closure's own parameter name
